@@ -8,7 +8,7 @@ from ..cfg import CFG
 from ..errors import AnalysisError
 from ..model import FuncInfo, dotted, src, walk_scope
 from ..report import Context
-from ..util import calls_in, node_for, path_text
+from ..util import returns_of, calls_in, node_for, path_text
 from . import c02
 from .c10 import plans, run_product
 
@@ -40,8 +40,26 @@ def run(ctx: Context) -> None:
 def r1_teardown(ctx: Context) -> None:
     prog = ctx.prog
     f = ctx.func("black_it.schedulers.base:BaseScheduler.session")
-    ctx.check("contextmanager" in f.decorators, "R1.teardown", "BaseScheduler.session:contextmanager", "session() is a generator-based context manager",
-              "session() is no longer a contextlib.contextmanager generator", f, f.node)
+    if "contextmanager" not in f.decorators:
+        # class-based manager that the front end could not read as a generator: the usual reason is an __exit__ that can return a true value
+        body = [st for st in f.node.body if not (isinstance(st, ast.Expr) and isinstance(st.value, ast.Constant))]
+        k = None
+        if len(body) == 1 and isinstance(body[0], ast.Return) and isinstance(body[0].value, ast.Call) and isinstance(body[0].value.func, ast.Name):
+            k = next((c for c in prog.classes.values() if c.name == body[0].value.func.id and "__exit__" in c.methods), None)
+        if k is None:
+            raise AnalysisError(f"{f.loc(f.node)}: session() is neither a generator-based context manager nor a plain factory of a class-based one; cannot decide R1")
+        ex = k.methods["__exit__"]
+        ctx.analysed(ex)
+        for r in returns_of(ex):
+            v = r.value
+            falsy = v is None or (isinstance(v, ast.Constant) and v.value in (None, False))
+            ctx.check(falsy, "R1.teardown", f"{k.name}.__exit__:suppresses", "__exit__ returns nothing / False: an exception raised in the with-body propagates",
+                      f"`{src(r)}`: __exit__ can return a true value, which makes the `with` statement swallow the exception raised by model/loss/sampler - calibrate() then continues as if nothing happened", ex, r)
+        ends_ = [c for c in calls_in(ex.node) if isinstance(c.func, ast.Attribute) and c.func.attr == "end_session"]
+        ctx.check(bool(ends_), "R1.teardown", f"{k.name}.__exit__:end_session", "__exit__ ends the session", "__exit__ does not call end_session()", ex, ex.node)
+        if not ctx.findings:
+            raise AnalysisError(f"{f.loc(f.node)}: class-based session manager {k.name} in a form the front end does not read; cannot decide R1")
+        return
     g = CFG(f.node, exc_edges=True)
     yields = [n for n in g.live if n.ast is not None and isinstance(n.ast, ast.Expr) and isinstance(n.ast.value, ast.Yield)]
     ctx.floor("R1", "yield in BaseScheduler.session", len(yields), 1)
